@@ -90,11 +90,21 @@ structure S (α : Type) where
   dropped : List (α × Option Nat)
   drained : List α
   resub : List (Nat × List α)
+  -- epochs (ghost): one epoch per stream generation; a request is tagged with the epoch in which its producer took the
+  -- client lock (that is where it read the nonce it echoes)
+  epoch : Nat
+  lockEp : Nat → Nat          -- producer `i`: the epoch at its `pLock`
+  rLockEp : Nat               -- the acknowledging receiver: the epoch at its `rAckLock`
+  queueEp : List Nat          -- tags of the queued requests (parallel to `queue`)
+  inflightEp : Nat            -- tag of the request in `Send`
+  sentEp : List (Nat × Nat)   -- (stream, tag) of every request on the wire (parallel to `sent`)
+  streamEp : Nat → Nat        -- the epoch of stream `k` (set when the reconnect that created it resets the nonces)
 
 def init {α : Type} : S α :=
   { queue := [], cmu := none, pc := fun _ => .idle, spc := .sel, rpc := .recv 1, senderStream := some 1,
     streamCh := none, nextSid := 2, dead := fun _ => false, stalled := false, closed := false,
-    enq := [], gone := [], sent := [], dropped := [], drained := [], resub := [] }
+    enq := [], gone := [], sent := [], dropped := [], drained := [], resub := [],
+    epoch := 0, lockEp := fun _ => 0, rLockEp := 0, queueEp := [], inflightEp := 0, sentEp := [], streamEp := fun _ => 0 }
 
 inductive Lbl (α : Type)
   | pStart (i : Nat) (r : α)
@@ -128,8 +138,8 @@ def setPc {α : Type} (s : S α) (i : Nat) (p : PPC α) : S α := { s with pc :=
 def canEnq {α : Type} (cap : Nat) (s : S α) : Bool := s.queue.length < cap || s.closed
 
 /-- the effect of a completed `sendRequest` (a stopped client with a full channel gives up without enqueuing) -/
-def doEnq {α : Type} (cap : Nat) (s : S α) (r : α) : S α :=
-  if s.queue.length < cap then { s with queue := s.queue ++ [r], enq := s.enq ++ [r] } else s
+def doEnq {α : Type} (cap : Nat) (s : S α) (r : α) (tag : Nat := 0) : S α :=
+  if s.queue.length < cap then { s with queue := s.queue ++ [r], enq := s.enq ++ [r], queueEp := s.queueEp ++ [tag] } else s
 
 def step {α : Type} (cap : Nat) (s : S α) : Lbl α → Option (S α)
   | .pStart i r =>
@@ -138,25 +148,25 @@ def step {α : Type} (cap : Nat) (s : S α) : Lbl α → Option (S α)
     | _ => none
   | .pLock i =>
     match s.pc i, s.cmu with
-    | .want r, none => some { (setPc s i (.locked r)) with cmu := some (.prod i) }
+    | .want r, none => some { (setPc s i (.locked r)) with cmu := some (.prod i), lockEp := fun j => if j = i then s.epoch else s.lockEp j }
     | _, _ => none
   | .pEnq i =>
     match s.pc i with
-    | .locked r => if canEnq cap s then some { (setPc (doEnq cap s r) i .done) with cmu := none } else none
+    | .locked r => if canEnq cap s then some { (setPc (doEnq cap s r (s.lockEp i)) i .done) with cmu := none } else none
     | _ => none
   | .sTakeReq =>
     match s.spc, s.queue with
     | .sel, r :: rest =>
       match s.senderStream with
-      | some k => some { s with queue := rest, gone := s.gone ++ [r], spc := .sending r k }
-      | none => some { s with queue := rest, gone := s.gone ++ [r], dropped := s.dropped ++ [(r, none)] }
+      | some k => some { s with queue := rest, gone := s.gone ++ [r], spc := .sending r k, queueEp := s.queueEp.tail, inflightEp := s.queueEp.headD 0 }
+      | none => some { s with queue := rest, gone := s.gone ++ [r], dropped := s.dropped ++ [(r, none)], queueEp := s.queueEp.tail }
     | _, _ => none
   | .sSendDone =>
     match s.spc with
     | .sending r k =>
       if s.stalled then none
       else if s.dead k then some { s with spc := .sel, senderStream := none, dropped := s.dropped ++ [(r, some k)] }
-      else some { s with spc := .sel, sent := s.sent ++ [(k, r)] }
+      else some { s with spc := .sel, sent := s.sent ++ [(k, r)], sentEp := s.sentEp ++ [(k, s.inflightEp)] }
     | _ => none
   | .sTakeStream =>
     match s.spc, s.streamCh with
@@ -178,11 +188,11 @@ def step {α : Type} (cap : Nat) (s : S α) : Lbl α → Option (S α)
     | _ => none
   | .rAckLock =>
     match s.rpc, s.cmu with
-    | .ackWant r k, none => some { s with rpc := .ackLocked r k, cmu := some .recv }
+    | .ackWant r k, none => some { s with rpc := .ackLocked r k, cmu := some .recv, rLockEp := s.epoch }
     | _, _ => none
   | .rAckEnq =>
     match s.rpc with
-    | .ackLocked r k => if canEnq cap s then some { (doEnq cap s r) with rpc := .recv k, cmu := none } else none
+    | .ackLocked r k => if canEnq cap s then some { (doEnq cap s r s.rLockEp) with rpc := .recv k, cmu := none } else none
     | _ => none
   | .rFail =>
     match s.rpc with
@@ -191,7 +201,8 @@ def step {α : Type} (cap : Nat) (s : S α) : Lbl α → Option (S α)
     | _ => none
   | .rDrain =>
     match s.rpc, s.cmu with
-    | .reconnWait k, none => some { s with rpc := .publish k, queue := [], gone := s.gone ++ s.queue, drained := s.drained ++ s.queue }
+    | .reconnWait k, none => some { s with rpc := .publish k, queue := [], gone := s.gone ++ s.queue, drained := s.drained ++ s.queue,
+                                           queueEp := [], epoch := s.epoch + 1, streamEp := fun j => if j = k then s.epoch + 1 else s.streamEp j }
     | _, _ => none
   | .rPublish =>
     match s.rpc, s.streamCh with
